@@ -72,7 +72,8 @@ CutoffsHonoured(cf, path) ==
   \A j \in 1..Len(path) :
      /\ path[j].dist <= cf.maxDist
      /\ (j = 1 => path[j].dist < cf.maxDistInit + cf.slack)
-     /\ path[j].lp * cf.minlp[2] + cf.slack * path[j].len >= cf.minlp[1] * path[j].len
+     /\ (cf.minlp[1] <= -100000000      \* no minimum configured (guards the 32-bit product)
+         \/ path[j].lp * cf.minlp[2] + cf.slack * path[j].len >= cf.minlp[1] * path[j].len)
 
 (***************************************************************************)
 (* C02: the model score of a path, recomputed from the tables alone.       *)
